@@ -313,6 +313,17 @@ type caseT struct {
 	// WithMaxErrors(-1) (never validated for a call: every test on it is `> 0`, so it means unlimited too).
 	// Applies where the case's own limit is 0.
 	Limits int `json:",omitempty"`
+	// Custom: a WithCustomValidator function is passed — 1 it accepts the value; 2..4 it returns a *validation.Error
+	// with Custom-1 field errors (deliberately unsorted), which ends the call before any strategy runs
+	Custom int `json:",omitempty"`
+}
+
+func customErrs(n int) [][2]string {
+	var out [][2]string
+	for i := n; i > 0; i-- {
+		out = append(out, [2]string{"zz_custom." + strconv.Itoa(i%2), "custom.rule" + strconv.Itoa(i)})
+	}
+	return out
 }
 
 // blocker: a value whose ValidateContext parks until released (a slow database lookup)
@@ -768,7 +779,7 @@ func genCase(r *hx.Rand, tier string) caseT {
 		c.Body = string(b)
 	case 3: // the type's own Validate() method: alone, or together with the tags (WithRunAll)
 		if r.Chance(1, 2) {
-			c.Mode = hx.Pick(r, []int{2, 2, 3})
+			c.Mode = hx.Pick(r, []int{2, 2, 3, 1}) // 1: full mode; under StrategyAuto the Validate() method wins
 			c.Named = "FullV"
 			o := genObject(r, describe(namedTypes[c.Named]), 0)
 			o = append(o, kv{"nerr", r.Range(0, 4)})
@@ -854,6 +865,9 @@ func genCase(r *hx.Rand, tier string) caseT {
 	}
 	if r.Chance(1, 5) {
 		c.Limits = r.Range(1, 2)
+	}
+	if !c.ViaApp && c.Variant == 0 && r.Chance(1, 8) {
+		c.Custom = r.Range(1, 4)
 	}
 	if r.Chance(1, 150) {
 		c.Load = 1001
@@ -1537,6 +1551,19 @@ func observe(c *caseT, rt reflect.Type, secrets []string) (o obsT) {
 	if rd := redactor(c); rd != nil {
 		opts = append(opts, validation.WithRedactor(rd))
 	}
+	if c.Custom > 0 {
+		n := c.Custom - 1
+		opts = append(opts, validation.WithCustomValidator(func(any) error {
+			if n == 0 {
+				return nil
+			}
+			var e validation.Error
+			for _, f := range customErrs(n) {
+				e.Add(f[0], f[1], "custom", nil)
+			}
+			return &e
+		}))
+	}
 	var verr error
 	func() {
 		defer func() {
@@ -2046,7 +2073,11 @@ func emit(id string, c caseT, st *hx.Stats) string {
 	}
 	// what the type's own Validate() returns (user code: a parameter)
 	var iface [][2]string
-	if c.Mode >= 2 {
+	hasIface := false
+	if _, ok := ptr.Interface().(interface{ Validate() error }); ok && c.Variant != 4 {
+		hasIface = true // (a pointer to the pointer does not carry the method: isApplicable looks one level deep)
+	}
+	if c.Mode >= 2 || (hasIface && c.Auto) {
 		if vi, ok := ptr.Interface().(interface{ Validate() error }); ok {
 			var ve *validation.Error
 			if err := vi.Validate(); err != nil && errors.As(err, &ve) {
@@ -2060,6 +2091,33 @@ func emit(id string, c caseT, st *hx.Stats) string {
 	l.Tok("I").Nat(len(iface))
 	for _, f := range iface {
 		l.Str(f[0]).Str(f[1])
+	}
+	// Validate's own glue: the strategy asked for (0 auto, 1 interface, 2 tags), WithRunAll, what isApplicable finds
+	// (computed here with reflect, independently), what the custom validator returns
+	strat := 0
+	switch {
+	case c.Mode == 3:
+		strat = 1
+	case c.Mode == 2:
+		strat = 0
+	case !c.Auto:
+		strat = 2
+	}
+	tagsApply := false
+	for i := 0; i < rt.NumField(); i++ {
+		if rt.Field(i).Tag.Get("validate") != "" {
+			tagsApply = true
+		}
+	}
+	l.Tok("C").Nat(strat).Bool(c.Mode == 2).Bool(hasIface).Bool(tagsApply)
+	if c.Custom >= 2 {
+		ce := customErrs(c.Custom - 1)
+		l.Bool(true).Nat(len(ce))
+		for _, f := range ce {
+			l.Str(f[0]).Str(f[1])
+		}
+	} else {
+		l.Bool(false)
 	}
 	in := l.String()
 
@@ -2113,6 +2171,12 @@ func emit(id string, c caseT, st *hx.Stats) string {
 		}
 		if c.Limits > 0 && (c.MaxErrors == 0 || c.MaxFields == 0) {
 			st.Count("no_limit_spelled_" + []string{"", "explicit_zero", "negative_maxerrors"}[c.Limits])
+		}
+		if c.Custom > 0 {
+			st.Count("custom_validator_" + []string{"", "accepts", "rejects", "rejects", "rejects"}[c.Custom])
+		}
+		if hasIface && c.Auto && c.Mode <= 1 {
+			st.Count("auto_strategy_on_a_type_with_validate_method")
 		}
 		if c.Load > 0 {
 			st.Count("under_load_1001_validations_in_flight")
